@@ -6,6 +6,7 @@
      jprint                                         <->  dump_config_string
      parse / from_dict (float(int) = the variable foi), to_data
                                                     <->  config_struct_from_dict, config_struct_to_dict
+     check, parse_ann (arbitrary annotations)       <->  _check_config_struct_type, _parse_config_value
    Library behaviour appears only as explicit hypotheses of the statements (never as axioms):
    jparse is ANY function (the json round-trip law is a premise of C16_dump_load only), foi is ANY
    function.  All statements are for all texts, all JSON trees, all declared types and all data. *)
@@ -127,6 +128,42 @@ Theorem C16_reparse_stable : forall foi T d p v, wf_ty T -> parse foi T d p = Ok
 Proof. exact reparse_stable. Qed.
 Print Assumptions C16_reparse_stable.
 
+(* ---- class check (_check_config_struct_type) -------------------------------------------- *)
+(* the check accepts an annotation iff it stands for a type of the accepted grammar cty (scalars,
+   Any, Optional, List, Dict[str,.], both Tuple forms, structures, bare List/Dict/Tuple) — at any
+   depth; multi-member Unions, non-string-key Dicts, the builtin tuple and unrecognised annotations
+   are refused *)
+Theorem C16_check_accepts_grammar : forall a p,
+  check a p = COk <-> exists T, denote a = Some T.
+Proof. exact check_ok_denotes. Qed.
+Print Assumptions C16_check_accepts_grammar.
+
+(* a refusal carries the definition path of an annotation that really is outside the grammar, with
+   the matching message kind; and any such annotation anywhere makes the check refuse *)
+Theorem C16_check_refusal_located : forall a,
+  (forall p k q, check a p = CErr k q -> exists q', q = p ++ q' /\ unsup_at a q' k) /\
+  (forall q k, unsup_at a q k -> forall p, exists k' q', check a p = CErr k' (p ++ q') /\ unsup_at a q' k').
+Proof. intro a. split; [exact (proj1 ce_all a) | exact (unsup_refused a)]. Qed.
+Print Assumptions C16_check_refusal_located.
+
+(* on every annotation that stands for an accepted type the parser for arbitrary annotations is the
+   parser of the accepted grammar ... *)
+Theorem C16_parse_ann_is_parse : forall foi a T, denote a = Some T ->
+  forall d p, parse_ann foi a d p = parse foi T d p.
+Proof. intros foi a T. exact (proj1 (pd_all foi) a T). Qed.
+Print Assumptions C16_parse_ann_is_parse.
+
+(* ... so for a class that passed the check: parsing is parsing in the accepted grammar (all the
+   theorems above apply), and every annotation the parser can be called on while parsing for it —
+   every sub-annotation — passes the check itself: the branches for unsupported types (last Union
+   member, ignored key type, builtin tuple, fall-through mismatch) are never taken *)
+Theorem C16_checked_parses_in_grammar : forall foi a p, check a p = COk ->
+  exists T, denote a = Some T /\
+    (forall d q, parse_ann foi a d q = parse foi T d q) /\
+    (forall b, subann b a -> forall p', check b p' = COk).
+Proof. exact checked_parses_in_grammar. Qed.
+Print Assumptions C16_checked_parses_in_grammar.
+
 (* ---- non-vacuity --------------------------------------------------------------------------- *)
 Local Open Scope N_scope.
 (* line 1: an object with key a# and a string value containing an escaped quote and a '#', then a
@@ -185,3 +222,24 @@ Proof.
   eapply dup_list; [left; reflexivity|]. apply dup_here. simpl. intro H.
   inversion H as [|? ? Hn _]; subst. apply Hn. right. left. reflexivity.
 Qed.
+
+(* class with fields  a: Optional[List[Tuple[int, Dict[str, float]]]]  and  r: Tuple (bare): accepted *)
+Definition ex_ann_ok := AStruct (AFCons [97] (AOpt (AList (ATuple (ACons AInt (ACons (ADict true AFloat) ANil))))) None
+                                (AFCons [114] (ARaw RTuple) None AFNil)).
+Example C16_example_check_ok : check ex_ann_ok [] = COk /\
+  denote ex_ann_ok = Some (TStruct (FCons [97] (TOpt (TList (TTuple (TCons TInt (TCons (TDict TFloat) TNil))))) None
+                                   (FCons [114] TRawTuple None FNil))).
+Proof. split; reflexivity. Qed.
+(* field a: List[Tuple[int, Dict[int, float]]]: refused at a.[].[1] for the key type;
+   field u: Union[int, str] refused at u; without the check the parser would take str *)
+Example C16_example_check_refused :
+  check (AStruct (AFCons [97] (AList (ATuple (ACons AInt (ACons (ADict false AFloat) ANil)))) None AFNil)) []
+    = CErr CNonStrKey [CField [97]; CAny; CIdx 1] /\
+  check (AStruct (AFCons [117] (AUnion (ACons AInt (ACons AStr ANil)) false) None AFNil)) []
+    = CErr CUnion [CField [117]] /\
+  parse_ann ex_foi (AUnion (ACons AInt (ACons AStr ANil)) false) (JStr [120]) [] = Ok (VStr [120]) /\
+  parse_ann ex_foi (AUnion (ACons AInt (ACons AStr ANil)) false) (JInt 1) [] = Err Mismatch [].
+Proof. repeat split; reflexivity. Qed.
+Example C16_example_raw_tuple :
+  parse ex_foi TRawTuple (JList [JInt 1; JList [JNull]]) [] = Ok (VTuple [VInt 1; VList [VNull]]).
+Proof. reflexivity. Qed.
